@@ -122,6 +122,12 @@ const maxCompiledRouteSteps = 50_000_000
 
 // createCompiledRouteHandler creates an HTTP handler that executes compiled bytecode
 func createCompiledRouteHandler(route *ast.Route, bytecode []byte, wsHub *websocket.Hub) server.RouteHandler {
+	// The handler keeps the type definitions of the module it was built from.
+	// compiledTypeDefs is replaced by every later setupRoutes call, including
+	// a hot reload that then fails to compile: reading the global at request
+	// time made a running server validate against another version's types.
+	typeDefs := compiledTypeDefs
+
 	return func(ctx *server.Context) error {
 		// Create VM instance. Bound the work one request may do, as the
 		// interpreter's loop limit does: without a step limit `while true {}`
@@ -201,8 +207,8 @@ func createCompiledRouteHandler(route *ast.Route, bytecode []byte, wsHub *websoc
 					// interpreter path does. Without this a compiled route
 					// accepts any body at all: `< input: NewUser` was enforced
 					// only when a provider injection forced interpreter mode.
-					bodyMap = applyCompiledInputDefaults(route, bodyMap)
-					if err := validateCompiledInput(route, bodyMap); err != nil {
+					bodyMap = applyCompiledInputDefaults(route, typeDefs, bodyMap)
+					if err := validateCompiledInput(route, typeDefs, bodyMap); err != nil {
 						ctx.Request.Body.Close()
 						return sendClientError(ctx, err.Error())
 					}
@@ -222,7 +228,7 @@ func createCompiledRouteHandler(route *ast.Route, bytecode []byte, wsHub *websoc
 		}
 		// A declared input type with required fields cannot be satisfied by an
 		// absent body or one that is not a JSON object (interpreter.go does the same).
-		if !inputObject && compiledInputRequiresObject(route) {
+		if !inputObject && compiledInputRequiresObject(route, typeDefs) {
 			return sendClientError(ctx, "input validation failed: request body must be a JSON object")
 		}
 
@@ -256,7 +262,7 @@ func createCompiledRouteHandler(route *ast.Route, bytecode []byte, wsHub *websoc
 		// interpreter does for a plain (status-less) return.
 		if route.ReturnType != nil {
 			checker := interpreter.NewTypeChecker()
-			checker.SetTypeDefs(compiledTypeDefs)
+			checker.SetTypeDefs(typeDefs)
 			if err := checker.CheckType(vm.ToInterface(result), route.ReturnType); err != nil {
 				return writeInternalError(ctx, fmt.Errorf("return type mismatch in route %s %s: %v", route.Method, route.Path, err))
 			}
@@ -813,7 +819,7 @@ func setCompiledTypeDefs(module *ast.Module) {
 // declared input type, mirroring what the interpreter does at
 // interpreter.go:558. Fields carrying a default are not treated as required,
 // so this does not reject bodies the interpreter would accept.
-func validateCompiledInput(route *ast.Route, body map[string]interface{}) error {
+func validateCompiledInput(route *ast.Route, typeDefs map[string]ast.TypeDef, body map[string]interface{}) error {
 	if route.InputType == nil {
 		return nil
 	}
@@ -821,13 +827,13 @@ func validateCompiledInput(route *ast.Route, body map[string]interface{}) error 
 	if !ok {
 		return nil
 	}
-	typeDef, exists := compiledTypeDefs[named.Name]
+	typeDef, exists := typeDefs[named.Name]
 	if !exists {
 		return nil
 	}
 
 	checker := interpreter.NewTypeChecker()
-	checker.SetTypeDefs(compiledTypeDefs)
+	checker.SetTypeDefs(typeDefs)
 	if err := checker.ValidateObjectAgainstTypeDef(body, typeDef); err != nil {
 		return fmt.Errorf("input validation failed: %v", err)
 	}
@@ -835,7 +841,7 @@ func validateCompiledInput(route *ast.Route, body map[string]interface{}) error 
 }
 
 // compiledInputTypeDef returns the type definition behind `< input: T`, if any.
-func compiledInputTypeDef(route *ast.Route) (ast.TypeDef, bool) {
+func compiledInputTypeDef(route *ast.Route, typeDefs map[string]ast.TypeDef) (ast.TypeDef, bool) {
 	if route.InputType == nil {
 		return ast.TypeDef{}, false
 	}
@@ -843,22 +849,22 @@ func compiledInputTypeDef(route *ast.Route) (ast.TypeDef, bool) {
 	if !ok {
 		return ast.TypeDef{}, false
 	}
-	typeDef, exists := compiledTypeDefs[named.Name]
+	typeDef, exists := typeDefs[named.Name]
 	return typeDef, exists
 }
 
 // compiledInputRequiresObject reports whether the declared input type has a
 // required field without a default.
-func compiledInputRequiresObject(route *ast.Route) bool {
-	typeDef, ok := compiledInputTypeDef(route)
+func compiledInputRequiresObject(route *ast.Route, typeDefs map[string]ast.TypeDef) bool {
+	typeDef, ok := compiledInputTypeDef(route, typeDefs)
 	return ok && interpreter.RequiresObject(typeDef)
 }
 
 // applyCompiledInputDefaults fills in literal defaults for fields the body
 // leaves out, as the interpreter's ApplyTypeDefaults does. Present fields,
 // including explicit nulls, are left alone.
-func applyCompiledInputDefaults(route *ast.Route, body map[string]interface{}) map[string]interface{} {
-	typeDef, ok := compiledInputTypeDef(route)
+func applyCompiledInputDefaults(route *ast.Route, typeDefs map[string]ast.TypeDef, body map[string]interface{}) map[string]interface{} {
+	typeDef, ok := compiledInputTypeDef(route, typeDefs)
 	if !ok {
 		return body
 	}
